@@ -1119,6 +1119,109 @@ pub mod versions {
 // assembling the corpus
 // ---------------------------------------------------------------------------
 
+/// A type alias whose name has a multi-byte character right in front of `Box<`: scale-info
+/// records the field's `type_name` as written (`ΔBox<u8>`), and anything that slices that
+/// string by byte offsets must respect character boundaries.
+#[allow(non_camel_case_types)]
+pub mod awkward_unicode_typename {
+    use super::*;
+    pub type ΔBox<T> = Vec<T>;
+    pub type Größe = u32;
+    #[derive(TypeInfo)]
+    pub struct Holder {
+        pub a: ΔBox<u8>,
+        pub b: Option<ΔBox<Größe>>,
+        pub c: Box<Größe>,
+    }
+    #[derive(TypeInfo)]
+    pub enum E {
+        V(ΔBox<bool>),
+        W { größe: Größe },
+    }
+    pub fn metas() -> Vec<MetaType> {
+        metas![Holder, E]
+    }
+}
+
+/// Fourteen differently shaped types that all claim one path (what several crate versions of
+/// one type look like after a merge), more than any small-group path in renaming covers.
+pub mod many_shapes {
+    use super::*;
+    macro_rules! shapes {
+        ($($n:ident ( $($t:ty),* )),* $(,)?) => {
+            $( #[derive(TypeInfo)] pub struct $n($(pub $t),*); )*
+            pub fn metas() -> Vec<MetaType> { metas![$($n),*, EA, EB] }
+        };
+    }
+    shapes!(
+        S0(), S1(u8), S2(u8, u8), S3(u8, u8, u8), S4(u8, u8, u8, u8), S5(u8, u8, u8, u8, u8),
+        S6(u8, u8, u8, u8, u8, u8), S7(u8, u8, u8, u8, u8, u8, u8), S8(u8, u8, u8, u8, u8, u8, u8, u8),
+        S9(u16, u8, u8, u8, u8, u8, u8, u8, u8), S10(u8, u8, u8, u8, u8, u8, u8, u8, u8, u8),
+        S11(u8, u8, u8, u8, u8, u8, u8, u8, u8, u8, u8), S12(bool), S13(bool, u32),
+    );
+    #[derive(TypeInfo)]
+    pub enum EA {
+        A,
+        B(u8),
+    }
+    #[derive(TypeInfo)]
+    pub enum EB {
+        A,
+        B(u8),
+        C { x: u16 },
+    }
+    /// all of them renamed to `clash::Foo`
+    pub fn registry() -> PortableRegistry {
+        let mut r = reg_of(metas());
+        for t in r.types.iter_mut() {
+            if !t.ty.path.segments.is_empty() {
+                t.ty.path.segments = vec!["clash".to_string(), "Foo".to_string()];
+            }
+        }
+        r
+    }
+}
+
+/// A chain of `depth` structs, each holding the next (what `struct N0 { next: N1 } ...` gives
+/// through scale-info), ending in a `u8`: deeper than any recursion guard one might pick.
+pub fn deep_chain(depth: usize) -> PortableRegistry {
+    let mut types = vec![];
+    for i in 0..depth {
+        types.push(serde_json::json!({
+            "id": i,
+            "type": {
+                "path": ["sim", "corpus", "chain", format!("N{i}")],
+                "def": {"composite": {"fields": [
+                    {"name": "next", "type": i + 1, "typeName": if i + 1 < depth { format!("N{}", i + 1) } else { "u8".to_string() }}
+                ]}}
+            }
+        }));
+    }
+    types.push(serde_json::json!({"id": depth, "type": {"def": {"primitive": "u8"}}}));
+    serde_json::from_value(serde_json::json!({ "types": types })).expect("harness: deep chain registry")
+}
+
+/// What a hand-written `TypeInfo` impl may do and scale-info's own impls never do: entries of
+/// builtin shape (sequence, array, tuple, compact) that declare type parameters. Every such
+/// entry of `reg` gets a parameter `T` naming its (first) element type.
+pub fn with_params_on_builtins(reg: &PortableRegistry) -> PortableRegistry {
+    let mut v = serde_json::to_value(reg).expect("harness: registry to json");
+    for t in v["types"].as_array_mut().expect("harness: types") {
+        let def = &t["type"]["def"];
+        let elem = if let Some(x) = def.get("sequence").or(def.get("array")).or(def.get("compact")) {
+            x["type"].as_u64()
+        } else if let Some(x) = def.get("tuple") {
+            x.as_array().and_then(|a| a.first()).and_then(|x| x.as_u64())
+        } else {
+            None
+        };
+        if let Some(e) = elem {
+            t["type"]["params"] = serde_json::json!([{"name": "T", "type": e}]);
+        }
+    }
+    serde_json::from_value(v).expect("harness: registry from json")
+}
+
 fn cat(mut a: Vec<MetaType>, b: Vec<MetaType>) -> Vec<MetaType> {
     a.extend(b);
     a
@@ -1159,6 +1262,7 @@ pub fn families() -> Vec<Entry> {
         ("awkward_rawmod", awkward_rawmod::metas()),
         ("awkward_compact_unit", awkward_compact_unit::metas()),
         ("awkward_cow_generic", awkward_cow_generic::metas()),
+        ("awkward_unicode_typename", awkward_unicode_typename::metas()),
         (
             "mix_small",
             cat(cat(prims::metas(), enums::metas()), compact::metas()),
@@ -1193,12 +1297,22 @@ pub fn families() -> Vec<Entry> {
             .collect(),
         ),
     ];
-    list.into_iter()
+    let mut out: Vec<Entry> = list
+        .into_iter()
         .map(|(n, m)| Entry {
             name: format!("fam:{n}"),
             reg: reg_of(m),
         })
-        .collect()
+        .collect();
+    out.push(Entry {
+        name: "fam:deep_chain".into(),
+        reg: deep_chain(200),
+    });
+    out.push(Entry {
+        name: "fam:handwritten_params".into(),
+        reg: with_params_on_builtins(&reg_of(cat(cat(arrays_tuples::metas(), collections::metas()), compact::metas()))),
+    });
+    out
 }
 
 /// Families that contain differently shaped types under one path.
@@ -1212,12 +1326,18 @@ pub fn dup_families() -> Vec<Entry> {
             cat(cat(assoc::metas_dup(), versions::metas()), prims::metas()),
         ),
     ];
-    list.into_iter()
+    let mut out: Vec<Entry> = list
+        .into_iter()
         .map(|(n, m)| Entry {
             name: format!("dup:{n}"),
             reg: reg_of(m),
         })
-        .collect()
+        .collect();
+    out.push(Entry {
+        name: "dup:many_shapes".into(),
+        reg: many_shapes::registry(),
+    });
+    out
 }
 
 pub fn polkadot_full() -> PortableRegistry {
